@@ -704,6 +704,318 @@ theorem parseCorrect_all (cfg : Cfg) :
   ⟨Compose.parseCorrect_of_open cfg (Or.inr rfl) openCompact_f64,
    Compose.parseCorrect_of_open cfg (Or.inl rfl) openCompact_f32⟩
 
+/-! ## C11 on the full domain `w < 2^64`, any `q`, `truncated → 0 < w` -/
+
+/-- the estimate depends only on the significand and the table entries — not on the decimal
+    exponent field, the `many_digits` flag or (up to the bias added at the end) the format -/
+theorem stage1_fst_congr {n n' : Number} (hm : n.mantissa = n'.mantissa) (sInt : Nat) (sFp : ExtFloat) :
+    (stage1 n sInt sFp).1 = (stage1 n' sInt sFp).1 := by
+  unfold stage1
+  rw [hm]
+  split <;> rfl
+
+theorem stage_irrel (F F' : FloatC) {n n' : Number} (hm : n.mantissa = n'.mantissa) (sInt : Nat)
+    (sFp lFp : ExtFloat) :
+    ∃ (M : Nat) (E0 : Int) (e e' : Nat),
+      stage F n sInt sFp lFp = (⟨M, E0 + F.exponentBias⟩, e) ∧
+      stage F' n' sInt sFp lFp = (⟨M, E0 + F'.exponentBias⟩, e') := by
+  obtain ⟨fp1, e1, heq1⟩ : ∃ u v, stage1 n sInt sFp = (u, v) := ⟨_, _, Prod.mk.eta.symm⟩
+  obtain ⟨fp1', e1', heq1'⟩ : ∃ u v, stage1 n' sInt sFp = (u, v) := ⟨_, _, Prod.mk.eta.symm⟩
+  have hc := stage1_fst_congr hm sInt sFp
+  rw [heq1, heq1'] at hc
+  dsimp only at hc
+  subst hc
+  obtain ⟨fp3, shift, heq2⟩ : ∃ u v, belNormalize (belMul fp1 lFp) = (u, v) := ⟨_, _, Prod.mk.eta.symm⟩
+  exact ⟨fp3.mant, fp3.exp, _, _, stage_leaf F n sInt sFp lFp heq1 heq2,
+    stage_leaf F' n' sInt sFp lFp heq1' heq2⟩
+
+/-- for `w = 1` the estimate's significand stays well below `2^64` (it is the significand of a power
+    of ten; the closest approach in range is `10^-146 ≈ 0.99904 · 2^-485`): 660 cases by evaluation -/
+def w1Check : Bool :=
+  (List.range 10).all fun s => (List.range 66).all fun l =>
+    match genBel.getSmall s, genBel.getLarge l with
+    | some a, some b => decide ((stage Gen.F64 ⟨0, 1, false⟩ (10 ^ s) a b).1.mant + 612 ≤ 2 ^ 64)
+    | _, _ => false
+
+theorem w1_check : w1Check = true := by decide +kernel
+
+theorem w1_mant_bound (F : FloatC) {n : Number} (hw : n.mantissa = 1) {s l : Nat} {sFp lFp : ExtFloat}
+    (hs : s < 10) (hl : l < 66) (hsf : genBel.getSmall s = some sFp) (hlf : genBel.getLarge l = some lFp) :
+    (stage F n (10 ^ s) sFp lFp).1.mant + 612 ≤ 2 ^ 64 := by
+  have hc := w1_check
+  unfold w1Check at hc
+  rw [List.all_eq_true] at hc
+  have h1 := hc s (List.mem_range.2 hs)
+  rw [List.all_eq_true] at h1
+  have h2 := h1 l (List.mem_range.2 hl)
+  rw [hsf, hlf] at h2
+  dsimp only at h2
+  obtain ⟨M, E0, e, e', a, b⟩ := stage_irrel F Gen.F64 (n := n) (n' := ⟨0, 1, false⟩) hw (10 ^ s) sFp lFp
+  rw [b] at h2
+  rw [a]
+  simpa using h2
+
+theorem acc_lt {F : FloatC} {e : Nat} {fp : ExtFloat} (h : errorIsAccurate F e fp = true) :
+    e < tooManyErrors := by
+  unfold errorIsAccurate at h
+  by_cases he : e ≥ tooManyErrors
+  · simp [he] at h
+  · omega
+
+theorem n351 : (2:ℕ) ^ 1164 ≤ 10 ^ 351 := by decide +kernel
+
+/-- `2^64 · 10^-351 ≤ 2^-1100` -/
+theorem m351 : (2:ℚ) ^ (64 : Int) * (10:ℚ) ^ (-351 : Int) ≤ (2:ℚ) ^ (-1100 : Int) := by
+  rw [show (-1100:ℤ) = (64:ℤ) + -((1164:ℕ):ℤ) by norm_num, zpow_add₀ (by norm_num)]
+  apply mul_le_mul_of_nonneg_left _ (by positivity)
+  rw [show (-351:ℤ) = -((351:ℕ):ℤ) from rfl, zpow_neg, zpow_neg, zpow_natCast, zpow_natCast]
+  apply inv_anti₀ (by positivity)
+  exact_mod_cast n351
+
+/-- tail of the algorithm, without a bound on the budget: the window for `v` is only available when
+    the budget did not saturate; the exact part `x0 = w·10^q` always has a small window -/
+theorem finish_sound_gen {F : FloatC} (h : F.WF) (hb : F.exponentBias ≤ 1100) {M e e' d' : Nat}
+    {E : Int} {v : Q} {x0 : ℚ} (hv : 0 < v.den) (hM : 2 ^ 63 ≤ M) (hM' : M < 2 ^ 64)
+    (he' : e' ≤ 612) (hde' : 4 * d' ≤ e')
+    (lo' : ((M : ℚ) - d') * (2:ℚ) ^ (E - F.exponentBias) ≤ x0)
+    (hi' : x0 ≤ ((M : ℚ) + e' - d') * (2:ℚ) ^ (E - F.exponentBias))
+    (r1 : (10:ℚ) ^ (-350 : Int) ≤ x0) (r2 : x0 < (10:ℚ) ^ (329 : Int))
+    (hwin : e < tooManyErrors → ∃ d : Nat, 1 ≤ d ∧ 4 * d ≤ e ∧
+      ((M : ℚ) - d) * (2:ℚ) ^ (E - F.exponentBias) ≤ v.toRat ∧
+      v.toRat ≤ ((M : ℚ) + e - d) * (2:ℚ) ^ (E - F.exponentBias))
+    (hsmall : E ≤ -65 → v.toRat ≤ (2:ℚ) ^ (-F.exponentBias))
+    (hexp : 0 ≤ (finish F ⟨M, E⟩ e).exp) :
+    extendedToFloat F (finish F ⟨M, E⟩ e) = rne F.fmt v := by
+  obtain ⟨_, hj⟩ := exp_range hM hM' he' hde' lo' hi' r1 r2
+  have e64 : (2:ℚ) ^ (64 : Int) = 18446744073709551616 := by
+    rw [show (64:ℤ) = ((64:ℕ):ℤ) from rfl, zpow_natCast]; norm_num
+  unfold finish at hexp ⊢
+  dsimp only at hexp ⊢
+  by_cases c1 : -E + 1 > 65
+  · rw [if_pos c1, ext_zero h]
+    exact (rne_zero_of_le h hv (hsmall (by omega))).symm
+  rw [if_neg c1] at hexp ⊢
+  by_cases c2 : (!errorIsAccurate F e ⟨M, E⟩) = true
+  · rw [if_pos c2] at hexp
+    dsimp only at hexp
+    rw [h.invalid] at hexp
+    omega
+  rw [if_neg c2] at hexp ⊢
+  have hacc : errorIsAccurate F e ⟨M, E⟩ = true := by simpa using c2
+  obtain ⟨d, hd, hde, lo, hi⟩ := hwin (acc_lt hacc)
+  by_cases c3 : -E + 1 = 65
+  · rw [if_pos c3, ext_zero h]
+    have hE : E = -64 := by omega
+    subst hE
+    have hsum := acc_unpack64 h hacc
+    refine (rne_zero_of_le h hv (small_value (t := 64) hi ?_ (by omega))).symm
+    have : ((M + e : Nat) : ℚ) ≤ 18446744073709551616 := by
+      have : M + e ≤ 18446744073709551616 := by omega
+      exact_mod_cast this
+    have hdq : (1 : ℚ) ≤ d := by exact_mod_cast hd
+    rw [e64]; push_cast at this; linarith
+  rw [if_neg c3]
+  have hE : -63 ≤ E := by omega
+  rw [C18_round_nearest h hM hM' hE]
+  exact (accurate_rne h hM hM' hE hd hde hacc hv lo hi).symm
+
+/-- **C11 (Bellerophon), full domain.**  For EVERY `Number` with a 64-bit significand, every integer
+    decimal exponent and either flag — excluding only `(w = 0, truncated)` — a definite answer
+    (non-negative exponent) of `bellerophon` is the correctly rounded value of every `v` the number
+    denotes: `v = w·10^q`, or any `v ∈ [w·10^q, (w+1)·10^q]` when digits were truncated.  No `NumOK`:
+    for small `w` with truncated digits the budget saturates and the stage declines. -/
+theorem C11_bellerophon {F : FloatC} (c : Covered F) (n : Number) (hw64 : n.mantissa < 2 ^ 64)
+    (hmany : n.manyDigits = true → 0 < n.mantissa)
+    {fp : ExtFloat} (hb : bellerophon genBel F n = some fp) (hdef : 0 ≤ fp.exp)
+    {v : Q} (hv : 0 < v.den)
+    (hlo : Q.le (ofDec n.mantissa n.exponent) v)
+    (hhi : if n.manyDigits then Q.le v (ofDec (n.mantissa + 1) n.exponent)
+           else Q.eqv v (ofDec n.mantissa n.exponent)) :
+    extendedToFloat F fp = rne F.fmt v := by
+  have h := c.wf
+  have hbias := c.bias_le
+  -- the hypotheses in ℚ
+  have v1 : (n.mantissa : ℚ) * (10:ℚ) ^ n.exponent ≤ v.toRat := by
+    have := (Q.le_iff (ofDec_den_pos _ _) hv).1 hlo
+    rwa [ofDec_toRat] at this
+  have v2 : v.toRat ≤ ((n.mantissa : ℚ) + 1) * (10:ℚ) ^ n.exponent := by
+    cases hm : n.manyDigits with
+    | true =>
+      rw [hm] at hhi
+      have := (Q.le_iff hv (ofDec_den_pos _ _)).1 hhi
+      rw [ofDec_toRat] at this
+      push_cast at this; exact this
+    | false =>
+      rw [hm] at hhi
+      have := (Q.eqv_iff hv (ofDec_den_pos _ _)).1 hhi
+      rw [ofDec_toRat] at this
+      rw [this]
+      have : (0:ℚ) < (10:ℚ) ^ n.exponent := by positivity
+      nlinarith
+  have v3 : n.manyDigits = false → v.toRat = (n.mantissa : ℚ) * (10:ℚ) ^ n.exponent := by
+    intro hm
+    rw [hm] at hhi
+    have := (Q.eqv_iff hv (ofDec_den_pos _ _)).1 hhi
+    rwa [ofDec_toRat] at this
+  have hp : (0:ℚ) < (10:ℚ) ^ n.exponent := by positivity
+  have hw64q : (n.mantissa : ℚ) + 1 ≤ (2:ℚ) ^ (64 : Int) := by
+    have : n.mantissa + 1 ≤ 2 ^ 64 := hw64
+    have := (Nat.cast_le (α := ℚ)).2 this
+    rw [show (64:ℤ) = ((64:ℕ):ℤ) from rfl, zpow_natCast]
+    push_cast at this; exact this
+  rcases bellerophon_cases F n with ⟨hz, hr⟩ | ⟨hw, hq, hr⟩ | ⟨hw, s, l, sFp, lFp, hs, hl, hq, hsf, hlf, hr⟩
+  · -- zero return
+    rw [hr] at hb; cases hb
+    rw [ext_zero h]
+    refine (rne_zero_of_le h hv ?_).symm
+    have h0 : (0:ℚ) ≤ (2:ℚ) ^ (-F.exponentBias) := (two_zpow_pos _).le
+    rcases hz with hw0 | hq
+    · cases hm : n.manyDigits with
+      | true => have := hmany hm; omega
+      | false => rw [v3 hm, hw0]; simpa using h0
+    · have hqle : (10:ℚ) ^ n.exponent ≤ (10:ℚ) ^ (-351 : Int) :=
+        zpow_le_zpow_right₀ (by norm_num) hq
+      calc v.toRat ≤ ((n.mantissa : ℚ) + 1) * (10:ℚ) ^ n.exponent := v2
+        _ ≤ (2:ℚ) ^ (64 : Int) * (10:ℚ) ^ n.exponent := mul_le_mul_of_nonneg_right hw64q hp.le
+        _ ≤ (2:ℚ) ^ (64 : Int) * (10:ℚ) ^ (-351 : Int) :=
+            mul_le_mul_of_nonneg_left hqle (by positivity)
+        _ ≤ (2:ℚ) ^ (-1100 : Int) := m351
+        _ ≤ _ := zpow_le_zpow_right₀ (by norm_num) (by omega)
+  · -- infinity return
+    rw [hr] at hb; cases hb
+    rw [ext_inf h]
+    refine (rne_inf_of_ge h hv ?_).symm
+    have hthr : (2:ℚ) ^ ((2:Int) ^ (F.ebits - 1)) ≤ (10:ℚ) ^ (310 : Int) :=
+      le_trans (zpow_le_zpow_right₀ (by norm_num) c.emax) p310
+    have hw1 : (1:ℚ) ≤ n.mantissa := by
+      have : 1 ≤ n.mantissa := Nat.pos_of_ne_zero hw
+      exact_mod_cast this
+    have hqle : (10:ℚ) ^ (310 : Int) ≤ (10:ℚ) ^ n.exponent :=
+      zpow_le_zpow_right₀ (by norm_num) hq
+    calc _ ≤ (10:ℚ) ^ (310 : Int) := hthr
+      _ ≤ 1 * (10:ℚ) ^ n.exponent := by rw [one_mul]; exact hqle
+      _ ≤ (n.mantissa : ℚ) * (10:ℚ) ^ n.exponent := mul_le_mul_of_nonneg_right hw1 hp.le
+      _ ≤ v.toRat := v1
+  · -- main path
+    rw [hr] at hb; cases hb
+    obtain ⟨sFp', e1, s1, s2, s3, s4⟩ := small_entry hs
+    obtain ⟨lFp', e2, l1, l2, l3, l4⟩ := large_entry hl
+    rw [hsf] at e1; rw [hlf] at e2
+    cases e1; cases e2
+    have h10q : (10:ℚ) ^ n.exponent = (10:ℚ) ^ s * (10:ℚ) ^ ((l : Int) * 10 - 350) := by
+      rw [hq, show (s : Int) + (l : Int) * 10 - 350 = (s : Int) + ((l : Int) * 10 - 350) by ring,
+        zpow_add₀ (by norm_num), zpow_natCast]
+    -- the number with the flag cleared: same estimate, small budget, window around `w·10^q`
+    obtain ⟨M, E0, e, e', st, st'⟩ :=
+      stage_irrel F F (n := n) (n' := ⟨n.exponent, n.mantissa, false⟩) rfl (10 ^ s) sFp lFp
+    obtain ⟨b1, b2, -, -, -, b5, b6⟩ := stage_spec F (num := ⟨n.exponent, n.mantissa, false⟩)
+      (s := s) (sFp := sFp) (lFp := lFp) (x := n.mantissa) (P := (10:ℚ) ^ ((l : Int) * 10 - 350))
+      hw hw64 s1 s2 s3 s4 l1 l2 l3 l4 (le_refl _) (by linarith) (fun _ => rfl)
+    have b5' := b5 (by intro hc; cases hc)
+    clear b5
+    rw [st'] at b1 b2 b5' b6
+    dsimp only at b1 b2 b5' b6
+    have hx0 : (n.mantissa : ℚ) * (10:ℚ) ^ s * (10:ℚ) ^ ((l : Int) * 10 - 350) =
+        (n.mantissa : ℚ) * (10:ℚ) ^ n.exponent := by rw [h10q]; ring
+    rw [hx0] at b6
+    obtain ⟨d', d1', d2', lo', hi'⟩ : ∃ d : Nat, 1 ≤ d ∧ 4 * d ≤ e' ∧
+        ((M : ℚ) - d) * (2:ℚ) ^ (E0 + F.exponentBias - F.exponentBias) ≤
+          (n.mantissa : ℚ) * (10:ℚ) ^ n.exponent ∧
+        (n.mantissa : ℚ) * (10:ℚ) ^ n.exponent ≤
+          ((M : ℚ) + e' - d) * (2:ℚ) ^ (E0 + F.exponentBias - F.exponentBias) := by
+      rcases b6 with hsat | hwin
+      · unfold tooManyErrors at hsat; omega
+      · exact hwin
+    -- the window for `v`, when the budget of the real number did not saturate
+    have hxv : v.toRat / (10:ℚ) ^ n.exponent * (10:ℚ) ^ s * (10:ℚ) ^ ((l : Int) * 10 - 350) = v.toRat := by
+      rw [mul_assoc, ← h10q]; field_simp
+    obtain ⟨-, -, -, -, -, -, a6⟩ := stage_spec F (num := n) (s := s) (sFp := sFp) (lFp := lFp)
+      (x := v.toRat / (10:ℚ) ^ n.exponent) (P := (10:ℚ) ^ ((l : Int) * 10 - 350))
+      hw hw64 s1 s2 s3 s4 l1 l2 l3 l4
+      (by rw [le_div_iff₀ hp]; exact v1) (by rw [div_le_iff₀ hp]; exact v2)
+      (by intro hm; rw [v3 hm]; field_simp)
+    rw [hxv, st] at a6
+    dsimp only at a6
+    rw [st] at hdef ⊢
+    dsimp only at hdef ⊢
+    have hw1 : (1:ℚ) ≤ n.mantissa := by
+      have : 1 ≤ n.mantissa := Nat.pos_of_ne_zero hw
+      exact_mod_cast this
+    have hqlo : (10:ℚ) ^ (-350 : Int) ≤ (10:ℚ) ^ n.exponent :=
+      zpow_le_zpow_right₀ (by norm_num) (by omega)
+    have hqhi : (10:ℚ) ^ n.exponent ≤ (10:ℚ) ^ (309 : Int) :=
+      zpow_le_zpow_right₀ (by norm_num) (by omega)
+    have r1 : (10:ℚ) ^ (-350 : Int) ≤ (n.mantissa : ℚ) * (10:ℚ) ^ n.exponent := by
+      calc (10:ℚ) ^ (-350 : Int) ≤ 1 * (10:ℚ) ^ n.exponent := by rw [one_mul]; exact hqlo
+        _ ≤ _ := mul_le_mul_of_nonneg_right hw1 hp.le
+    have r2 : (n.mantissa : ℚ) * (10:ℚ) ^ n.exponent < (10:ℚ) ^ (329 : Int) := by
+      have h20 : (2:ℚ) ^ (64 : Int) ≤ (10:ℚ) ^ (20 : Int) := by
+        rw [show (64:ℤ) = ((64:ℕ):ℤ) from rfl, show (20:ℤ) = ((20:ℕ):ℤ) from rfl, zpow_natCast,
+          zpow_natCast]; norm_num
+      calc (n.mantissa : ℚ) * (10:ℚ) ^ n.exponent < (2:ℚ) ^ (64 : Int) * (10:ℚ) ^ n.exponent :=
+            mul_lt_mul_of_pos_right (by linarith) hp
+        _ ≤ (10:ℚ) ^ (20 : Int) * (10:ℚ) ^ (309 : Int) :=
+            mul_le_mul h20 hqhi hp.le (by positivity)
+        _ = (10:ℚ) ^ (329 : Int) := by rw [← zpow_add₀ (by norm_num)]; norm_num
+    refine finish_sound_gen h hbias hv b1 b2 b5' d2' lo' hi' r1 r2 ?_ ?_ hdef
+    · intro hlt
+      rcases a6 with hsat | hwin
+      · exact absurd hsat (Nat.not_le.2 hlt)
+      · exact hwin
+    · -- exponent ≤ −65: the whole interval is below half the smallest subnormal
+      intro hE
+      have hpj := two_zpow_pos (E0 + F.exponentBias - F.exponentBias)
+      have hMq : (M : ℚ) + 612 ≤ 18446744073709551616 + 612 := by
+        have : M ≤ 18446744073709551616 := by omega
+        have := (Nat.cast_le (α := ℚ)).2 this
+        push_cast at this; linarith
+      have he'q : (e' : ℚ) ≤ 612 := by exact_mod_cast b5'
+      have hd'q : (1 : ℚ) ≤ d' := by exact_mod_cast d1'
+      have e65 : (2:ℚ) ^ (65 : Int) = 36893488147419103232 := by
+        rw [show (65:ℤ) = ((65:ℕ):ℤ) from rfl, zpow_natCast]; norm_num
+      -- v ≤ c · (M + e' − d') · 2^j with c · (M + e' − d') ≤ 2^65
+      have key : ∃ cM : ℚ, v.toRat ≤ cM * (2:ℚ) ^ (E0 + F.exponentBias - F.exponentBias) ∧
+          cM ≤ (2:ℚ) ^ (65 : Int) := by
+        cases hm : n.manyDigits with
+        | false =>
+          refine ⟨(M : ℚ) + e' - d', by rw [v3 hm]; exact hi', ?_⟩
+          rw [e65]; linarith
+        | true =>
+          by_cases hw2 : 2 ≤ n.mantissa
+          · have hw2q : (2:ℚ) ≤ n.mantissa := by exact_mod_cast hw2
+            refine ⟨3 / 2 * ((M : ℚ) + e' - d'), ?_, ?_⟩
+            · have : v.toRat ≤ 3 / 2 * ((n.mantissa : ℚ) * (10:ℚ) ^ n.exponent) := by
+                have : ((n.mantissa : ℚ) + 1) ≤ 3 / 2 * n.mantissa := by linarith
+                have := mul_le_mul_of_nonneg_right this hp.le
+                linarith
+              have := mul_le_mul_of_nonneg_left hi' (show (0:ℚ) ≤ 3 / 2 by norm_num)
+              linarith
+            · rw [e65]; linarith
+          · have hw1' : n.mantissa = 1 :=
+              Nat.le_antisymm (Nat.le_of_lt_succ (Nat.lt_of_not_le hw2)) (Nat.pos_of_ne_zero hw)
+            have hb := w1_mant_bound F hw1' hs hl hsf hlf
+            rw [st] at hb
+            dsimp only at hb
+            have hbq : (M : ℚ) + 612 ≤ 18446744073709551616 := by
+              have : M + 612 ≤ 18446744073709551616 := by omega
+              exact_mod_cast this
+            refine ⟨2 * ((M : ℚ) + e' - d'), ?_, ?_⟩
+            · have : v.toRat ≤ 2 * ((n.mantissa : ℚ) * (10:ℚ) ^ n.exponent) := by
+                rw [hw1'] at v2 ⊢
+                push_cast at v2 ⊢
+                linarith
+              have := mul_le_mul_of_nonneg_left hi' (show (0:ℚ) ≤ 2 by norm_num)
+              linarith
+            · rw [e65]; linarith
+      obtain ⟨cM, k1, k2⟩ := key
+      calc v.toRat ≤ cM * (2:ℚ) ^ (E0 + F.exponentBias - F.exponentBias) := k1
+        _ ≤ (2:ℚ) ^ (65 : Int) * (2:ℚ) ^ (E0 + F.exponentBias - F.exponentBias) :=
+            mul_le_mul_of_nonneg_right k2 hpj.le
+        _ = (2:ℚ) ^ (65 + (E0 + F.exponentBias - F.exponentBias)) :=
+            (zpow_add₀ (by norm_num) _ _).symm
+        _ ≤ (2:ℚ) ^ (-F.exponentBias) := zpow_le_zpow_right₀ (by norm_num) (by omega)
+
+
 /-! ## Non-vacuity of the contracts on concrete inputs -/
 
 -- a definite answer: `1e-5` exactly
